@@ -350,11 +350,6 @@ func (ex *Exec) havoc(t types.Type, prefix string) (*Value, *Term) {
 	v := &Value{T: t, C: make([]*Term, len(l.Comps))}
 	var facts []*Term
 	for i, c := range l.Comps {
-		if c.Kind == kStrOff && c.Lift == 0 {
-			// a string's bytes are a value of its own: offset 0 without loss of generality
-			v.C[i] = ex.zeroOfSort(c.Sort)
-			continue
-		}
 		v.C[i] = ex.tb.Fresh(prefix+"."+c.Path, c.Sort)
 	}
 	facts = append(facts, ex.typeFacts(v))
